@@ -12,6 +12,19 @@ CODE = {"C": 0, "P": 1, "U": 2, "?": 2}
 # ------------------------------------------------------------------------------------------------
 # rendering (must equal the strings of Driver/Sched.lean)
 # ------------------------------------------------------------------------------------------------
+SCALE = {"k": 1}   # minutes are sent to the (integer) model multiplied by the case's scale (fractional daylight)
+
+
+def Q(v):
+    """a minute value for the model: exact multiple of 1/scale, as an integer"""
+    from fractions import Fraction
+
+    f = Fraction(v) * SCALE["k"]
+    if f.denominator != 1:
+        return "NONINTEGRAL(%s)" % v      # shows up as a disagreement with the case attached
+    return int(f)
+
+
 def L(xs):
     return "[" + ",".join(str(x) for x in xs) + "]"
 
@@ -21,16 +34,17 @@ def show_queue(q):
 
 
 def show_rep(r):
-    return "-" if r is None else L(r)
+    return "-" if r is None else L([r[0], Q(r[1])])
 
 
 def new_line(case, plans):
     kind = {"routine": "r", "stationary": "s", "followup": "f"}[case["kind"]]
-    cap = case["cap"] if case.get("cap") is not None else case["_cap_used"]
+    # no capacity given: the Method's own estimate, as DOCUMENTED (computed from the configuration by the harness)
+    cap = case["cap"] if case.get("cap") is not None else case.get("_cap_documented", case["_cap_used"])
     sites = []
     for s, plan in zip(case["sites"], plans):
         f = s.get("freq")
-        sites.append(L([s["id"], -1 if f is None else f, 1 if s.get("deploy", True) else 0, s["S"],
+        sites.append(L([s["id"], -1 if f is None else f, 1 if s.get("deploy", True) else 0, Q(s["S"]),
                         L(s.get("months", [])), L(s.get("years", [])),
                         L(L(p[:2]) for p in (plan or []))]))
     crews = case["crews"] if case["crews"] > 0 else (case.get("_crews_estimate") or case.get("_crews_used") or 0)
@@ -44,13 +58,13 @@ def new_reply(static):
 
 def day_line(rec):
     outs = rec.get("outcomes") or []
-    return "day %d %d %d %s" % (*rec["date"], L(L([o[0], CODE[o[1]], o[2] if o[1] == "P" else 0]) for o in outs))
+    return "day %d %d %d %s" % (*rec["date"], L(L([o[0], CODE[o[1]], Q(o[2]) if o[1] == "P" else 0]) for o in outs))
 
 
 def day_reply_routine(rec):
     if rec["crash"]:
         return "c=1"
-    today = L(L([o[0], o[2] if o[1] in "CP" else 0]) for o in rec["outcomes"])
+    today = L(L([o[0], Q(o[2]) if o[1] in "CP" else 0]) for o in rec["outcomes"])
     st = L(L([p["site"], p["queued"], L(L(x) for x in p["done"]), show_rep(p["report"])]) for p in rec["planners"])
     return "c=0 i=%s p=%s t=%s q=%s s=%s" % (L(rec["issued"]), L(rec["plan"]), today, show_queue(rec["queue"]), st)
 
@@ -58,7 +72,7 @@ def day_reply_routine(rec):
 def day_reply_followup(case, rec):
     if rec["crash"]:
         return "c=1"
-    today = L(L([o[0], o[2] if o[1] in "CP" else 0]) for o in rec["outcomes"])
+    today = L(L([o[0], Q(o[2]) if o[1] in "CP" else 0]) for o in rec["outcomes"])
     reps = {p[0]: p[1] for p in rec["planners"]}
     st = L(L([s["id"], 1 if s["id"] in rec["flags"] else 0, L([L([0, rec["totals"][s["id"]]])]),
               show_rep(reps.get(s["id"]))]) for s in case["sites"])
@@ -69,6 +83,7 @@ def day_reply_followup(case, rec):
 # correspondence
 # ------------------------------------------------------------------------------------------------
 def lines_routine(case, static, trace):
+    SCALE["k"] = case.get("scale", 1)
     plans = [st["plan"] for st in static]
     req = [new_line(case, plans)]
     exp = [new_reply(static)]
@@ -79,6 +94,7 @@ def lines_routine(case, static, trace):
 
 
 def lines_followup(case, trace):
+    SCALE["k"] = case.get("scale", 1)
     req = [new_line(case, [[] for _ in case["sites"]])]
     exp = [None]
     for rec in trace:
